@@ -94,7 +94,7 @@ func c04Draw(rt *rapid.T) *c04Case {
 	}
 	fav := rapid.SampledFrom(c04Decisions).Draw(rt, "favourite")
 	favW := rapid.SampledFrom([]int{30, 55, 55, 75, 90}).Draw(rt, "favWeight")
-	ns := rapid.IntRange(1, 40).Draw(rt, "nsteps")
+	ns := rapid.IntRange(1, ev.Pick(40, 80)).Draw(rt, "nsteps")
 	for i := 0; i < ns; i++ {
 		s := c04Step{idx: rapid.IntRange(0, c.n-1).Draw(rt, "idx"), ts: int64(100 + rapid.IntRange(0, 1).Draw(rt, "ts"))}
 		if rapid.IntRange(0, 99).Draw(rt, "w") < favW {
@@ -224,10 +224,10 @@ func c04Counts(cnt map[c04Decision]int) string {
 }
 
 func TestC04(t *testing.T) {
-	rec := ev.New("C04", "n in 1..10 validators, sequences of 1..40 add(index, vote) on the real voteSet with decisions from {nil, A0, B0, C1, A1(same block, other part set)} (one drawn favourite with drawn weight), two timestamps, duplicates and conflicting re-votes arising from repeated indexes; after every add the slot array is read back and recounted; non-trivial = a +2/3 decision existed and a vote for another decision was added afterwards; distinct by the rendered sequence")
+	rec := ev.New("C04", "n in 1..10 validators, sequences of 1..40 (thorough 80) add(index, vote) on the real voteSet with decisions from {nil, A0, B0, C1, A1(same block, other part set)} (one drawn favourite with drawn weight), two timestamps, duplicates and conflicting re-votes arising from repeated indexes; after every add the slot array is read back and recounted; non-trivial = a +2/3 decision existed and a vote for another decision was added afterwards; distinct by the rendered sequence")
 	defer rec.Flush(t)
 	t.Run("sequences", func(t *testing.T) {
-		ev.Check(t, 2500, 12000, func(rt *rapid.T) {
+		ev.Check(t, 4000, 60000, func(rt *rapid.T) {
 			c := c04Draw(rt)
 			var st c04Stats
 			msg := c04Run(c, &st)
